@@ -299,7 +299,12 @@ func init() {
 				r.Validated(1)
 				if clause != "" {
 					detail["options"] = optSets[oi].name
-					r.Fail(x, clause, fmt.Sprintf("%s json=%s", sig, detail["json"]), detail)
+					// the type is part of the violation's identity: shrinking stays within one Go type
+					tid := tname
+					if family == 1 {
+						tid = fmt.Sprintf("%T", named[ni])
+					}
+					r.Fail(x, clause+":"+tid, fmt.Sprintf("%s json=%s", sig, detail["json"]), detail)
 					r.Outcome("rejected")
 					break // one witness per type
 				}
